@@ -1174,3 +1174,88 @@ def batches_of(space):
     """Abstract batch sequence of a batcher over `space` (value of every iteration: the positions of the current batch)."""
     b = Batch(space)
     return TT((("rows", b),), "B", "C", "free", kind="pos", ref=space)
+
+
+# ------------------------------------------------------------------------------------------------ integer index models (mask cropping)
+class NZCoords:
+    """One coordinate vector of torch.where(mask) / torch.nonzero(mask, as_tuple=True) of a non-empty 2-D boolean SymArr:
+    only its extremes are modelled (min / max), constrained by the contract of `where` (see install_crop)."""
+
+    _pyvc_value = True
+
+    def __init__(self, lo, hi):
+        self.lo, self.hi = lo, hi
+
+    def min(self):
+        return self.lo
+
+    def max(self):
+        return self.hi
+
+
+def install_crop(reg):
+    """torch.fft.fftshift / ifftshift as index maps on symbolic arrays (all axes), written with if-then-else instead of `mod`
+    (0 <= i < n and 0 <= n//2 < n, so one wrap suffices) to stay in linear integer arithmetic; torch.where(cond) of a 2-D mask."""
+    M = reg.models
+
+    def shift_model(f, sign):
+        prev = M.get(f)
+
+        def h(interp, x, dim=None, **kw):
+            if not isinstance(x, SymArr):
+                return prev(interp, x, dim=dim, **kw) if prev is not None else NotImplemented
+            if dim is not None or kw:
+                raise OutOfSubset("fftshift with explicit dims on a symbolic array")
+            ns = [lift(d) for d in x.shape]
+
+            def src_index(i, n):
+                s_ = n / 2
+                t = (i - s_) if sign > 0 else (i + s_)       # fftshift: out[i] = in[(i - n//2) mod n]; ifftshift: out[i] = in[(i + n//2) mod n]
+                return z3.If(t < 0, t + n, z3.If(t >= n, t - n, t))
+
+            def dst_index(i, n):                              # where in[i] lands
+                s_ = n / 2
+                t = (i + s_) if sign > 0 else (i - s_)
+                return z3.If(t < 0, t + n, z3.If(t >= n, t - n, t))
+
+            xf = x.fn
+            out = SymArr(x.shape, lambda *idx: xf(*[src_index(lift(i), n) for i, n in zip(idx, ns)]), x.kind)
+            out.reindexed = (x, lambda *idx: [dst_index(lift(i), n) for i, n in zip(idx, ns)])
+            return out
+
+        M[f] = h
+
+    shift_model(torch.fft.fftshift, +1)
+    shift_model(torch.fft.ifftshift, -1)
+
+    prev_where = M.get(torch.where)
+
+    def m_where(interp, c, a=None, b=None):
+        if not (a is None and b is None and isinstance(c, SymArr) and c.ndim == 2):
+            return prev_where(interp, c, a, b) if (a is not None or b is not None) else prev_where(interp, c)
+        ctx = interp.ctx
+        Hn, Wn = lift(c.shape[0]), lift(c.shape[1])
+        ylo, yhi, xlo, xhi = (ctx.fresh(n, "int") for n in ("ys_min", "ys_max", "xs_min", "xs_max"))
+        ctx.assume(z3.And(0 <= ylo.t, ylo.t <= yhi.t, yhi.t < Hn, 0 <= xlo.t, xlo.t <= xhi.t, xhi.t < Wn))
+        i, j = z3.Int("i!nz"), z3.Int("j!nz")
+        src = getattr(c, "reindexed", None)
+        if src is not None and getattr(src[0], "func", None) is not None:
+            # the same statement over the array that c re-indexes (bijective index map): gives the quantifier a pattern
+            base, fwd = src
+            pi, pj = fwd(i, j)
+            body = z3.Implies(z3.And(i >= 0, i < Hn, j >= 0, j < Wn, lift(base.fn(i, j))),
+                              z3.And(ylo.t <= pi, pi <= yhi.t, xlo.t <= pj, pj <= xhi.t))
+            ctx.assume(z3.ForAll([i, j], body, patterns=[base.func(i, j)]))
+        else:
+            body = z3.Implies(z3.And(i >= 0, i < Hn, j >= 0, j < Wn, lift(c.fn(i, j))), z3.And(ylo.t <= i, i <= yhi.t, xlo.t <= j, j <= xhi.t))
+            ctx.assume(z3.ForAll([i, j], body))
+        # the extremes are attained
+        for nm, row, col in (("c_lo", ylo.t, None), ("c_hi", yhi.t, None), ("r_lo", None, xlo.t), ("r_hi", None, xhi.t)):
+            wv = ctx.fresh("nz_" + nm, "int")
+            if col is None:
+                ctx.assume(z3.And(wv.t >= 0, wv.t < Wn, lift(c.fn(row, wv.t))))
+            else:
+                ctx.assume(z3.And(wv.t >= 0, wv.t < Hn, lift(c.fn(wv.t, col))))
+        return (NZCoords(ylo, yhi), NZCoords(xlo, xhi))
+
+    M[torch.where] = m_where
